@@ -267,7 +267,7 @@ def _inject(rng, model, utt, kind, k, meta):
         if not two:
             return False
         w = rng.choice([2, 4, 1])
-        rows = [(r + [-1])[:w] for r in ref["data"]]
+        rows = [(list(r) + [-1] * w)[:w] for r in ref["data"]]
         f[name][fn] = DM.tspec(ref["dtype"], [R, w], rows)
     else:
         if not two or ref["shape"][1] != 3 or ref["dtype"] not in ("int64", "int32", "int16", "int8"):
